@@ -66,6 +66,13 @@ def _lib_error(ctx, args, kwargs):
     return any(c.__module__ == EX.__name__ for c in cls.__mro__)
 
 
+def _raised_in(ctx, args, kwargs):
+    exc, name = args
+    if not isinstance(exc, SExc):
+        return S.raised_in(exc, name)
+    return any(q == name or q.endswith("." + name) for q in exc.extra.get("via", ()))
+
+
 def _same(ctx, args, kwargs):
     return ctx.identical(args[0], args[1])
 
@@ -254,6 +261,7 @@ ModelsMixin.FUNCTION_MODELS.update({
     "pyvc.spec.unbe": _unbe,
     "pyvc.spec.zeros": _zeros,
     "pyvc.spec.lib_error": _lib_error,
+    "pyvc.spec.raised_in": _raised_in,
     "pyvc.spec.same": _same,
     "pyvc.spec.is_instance_of": _is_instance_of,
     "pyvc.spec.typename": _typename,
